@@ -95,6 +95,20 @@ func genC17a(t *rapid.T) c17aScenario {
 		}
 		c.Locations = append(c.Locations, l)
 	}
+	if rapid.IntRange(0, 3).Draw(t, "dupName") == 0 {
+		// two entries of the locations list share a name (the validation accepts it): a server that
+		// lists the name uses both
+		k := rapid.IntRange(0, len(locNames)-1).Draw(t, "dupOf")
+		l := config.LocationConfig{Name: locNames[k], Upstream: c.Upstreams[rapid.IntRange(0, len(c.Upstreams)-1).Draw(t, "dupUp")].Name, Prefixes: []string{fmt.Sprintf("/l%d", len(locNames))}}
+		if rapid.Bool().Draw(t, "dupHosts") {
+			l.Hosts = []string{rapid.SampledFrom([]string{"c17.test", "Other.C17.test"}).Draw(t, "dupHost")}
+		}
+		if rapid.Bool().Draw(t, "dupFirst") {
+			c.Locations = append([]config.LocationConfig{l}, c.Locations...)
+		} else {
+			c.Locations = append(c.Locations, l)
+		}
+	}
 	ns := rapid.IntRange(1, 3).Draw(t, "nServers")
 	for i := 0; i < ns; i++ {
 		s := config.ServerConfig{Addr: fmt.Sprintf("127.0.1.%d:0", i+1), Cache: c.Caches[rapid.IntRange(0, len(c.Caches)-1).Draw(t, "srvCache")].Name}
@@ -158,16 +172,21 @@ func execC17a(sc c17aScenario) *vstat.Outcome {
 			out.Violate("C17", "server-missing", "server %q of an accepted configuration is not registered/listening after applying it", s.Addr)
 			continue
 		}
+		var listed []*config.LocationConfig
+		seenLoc := map[int]bool{}
 		for _, ln := range s.Locations {
-			var loc *config.LocationConfig
 			for i := range cfg.Locations {
-				if cfg.Locations[i].Name == ln {
-					loc = &cfg.Locations[i]
+				if cfg.Locations[i].Name == ln && !seenLoc[i] {
+					seenLoc[i] = true
+					listed = append(listed, &cfg.Locations[i])
 				}
 			}
-			if loc == nil {
-				continue
-			}
+		}
+		if len(listed) > len(s.Locations) {
+			out.Class("two_locations_share_a_name")
+		}
+		for _, loc := range listed {
+			ln := loc.Name
 			probeHost := "c17.test"
 			if len(loc.Hosts) > 0 {
 				probeHost = loc.Hosts[0]
